@@ -1,4 +1,4 @@
-"""Regenerate coq/Gen/GenEnc.v from /repo: the encoding precedence ladder of
+"""Regenerate coq/Gen/GenEncoding.v from /repo: the encoding precedence ladder of
 cssutils.util._readUrl and the enctype hand-over of CSSImportRule._setHref,
 translated statement by statement from their ASTs (fail-closed: any statement
 shape this small translator does not know raises Untranslatable, which the
@@ -18,7 +18,7 @@ import textwrap
 from .emit import header, src_info
 from .regex2coq import Untranslatable
 
-NAME = 'GenEnc'
+NAME = 'GenEncoding'
 
 OPTION_VARS = {'overrideEncoding', 'httpEncoding', 'parentEncoding', 'contentEncoding', 'encoding',
                'usedEncoding', 'encodingOverride'}
@@ -142,7 +142,7 @@ def generate():
     import cssutils
     from cssutils import util
     from cssutils.css import cssimportrule
-    out = [header('GenEnc', ['cssutils/util.py', 'cssutils/css/cssimportrule.py'])]
+    out = [header('GenEncoding', ['cssutils/util.py', 'cssutils/css/cssimportrule.py'])]
     out.append('From Coq Require Import NArith Bool.\n'
                'Definition enc := N.\n'
                'Definition enc_utf8 : enc := 0.   (* the literal \'utf-8\'; other names are numbered by the harness *)\n'
@@ -179,7 +179,7 @@ def generate():
                '   the chosen encoding; UnicodeDecodeError -> None *)\n'
                'Definition readurl_decoded (content_is_str decodes : bool) : bool :=\n'
                '  if content_is_str then true else decodes.\n\n')
-    info.append(src_info('GenEnc.readurl_ladder', 'cssutils/util.py', line, line + len(inspect.getsourcelines(util._readUrl)[0])))
+    info.append(src_info('GenEncoding.readurl_ladder', 'cssutils/util.py', line, line + len(inspect.getsourcelines(util._readUrl)[0])))
     info[-1]['hash'] = str(hash(ast.dump(inner[1])))
 
     # ---- CSSImportRule._setHref: enctype -> (encodingOverride, encoding)
@@ -205,6 +205,6 @@ def generate():
     hand = _stmts(found[idx:idx + 2], '(encodingOverride, encoding)', 1, enctype_is_option=False)
     out.append('(* cssutils/css/cssimportrule.py:%d _setHref, enctype -> (encodingOverride, encoding) *)\n' % line2)
     out.append('Definition sethref_handover (usedEncoding : option enc) (enctype : N) : option enc * option enc :=\n%s.\n' % hand)
-    info.append(src_info('GenEnc.sethref_handover', 'cssutils/css/cssimportrule.py', line2, None))
+    info.append(src_info('GenEncoding.sethref_handover', 'cssutils/css/cssimportrule.py', line2, None))
     info[-1]['hash'] = str(hash(ast.dump(found[idx + 1])))
     return ''.join(out), info
